@@ -8,11 +8,15 @@ correspondence check compares with the real `TsDB` objects after every operation
 
 Second part (content binding, `Qats.Binding`): the registry model knows series objects only as identities; `Binding.step`
 runs alongside `Registry.step` and records for every constructed object where its content comes from (`Origin`: record
-number of an index-addressed file / data set looked up by name in a name-addressed file / series given to `add` / deep
-copy), and per database the dictionary key ↦ registered record (`Rec`).  The theorems say that a read returns the record
+number of an index-addressed file / data set of a name-addressed file looked up by the name registered at load time /
+series given to `add` / deep copy), and per database the dictionary key ↦ registered record (`Rec`).  The theorems say that a read returns the record
 the key was registered for.  `Binding.Inv b s` = both databases coherent, the origin table only mentions identities below
 the counter, and for EVERY key `k` of A or B with registered record `rc`:  a cached object has root origin `rc.origin`, and
 if nothing is cached the next read constructs the series from `rc.origin` (`inv_cached`, `inv_unread` spell this out).
+Until the repair of finding F17 (renaming a not-yet-read series of a name-addressed file made `_read` look the data set up
+under the NEW name) the invariant was proved with that rename excluded and refuted without the exclusion; the restriction
+disappeared with the repair: `binding_step` / `binding_run` hold for every well-formed operation / history, and the former
+counter-histories are kept as regression examples (`f17_history_bound`, `f17_swap_history_bound`).
 -/
 namespace Qats.Props.C08
 open Qats Qats.Names Qats.Registry
@@ -90,79 +94,55 @@ theorem inv_cached (b : Binding.Bind) (s : State) (hI : Binding.Inv b s) (w : Wh
 /-- … and about a listed key that is not cached: the next read constructs its series from the registered record. -/
 theorem inv_unread (b : Binding.Bind) (s : State) (hI : Binding.Inv b s) (w : Which) (k : Str)
     (hk : k ∈ (getDb s w).keys) (h : ∀ obj, lookup (getDb s w).register k ≠ some (some obj)) :
-    ∃ rc, lookup (Binding.getRec b w) k = some rc ∧ Binding.readOrigin (getDb s w) k = rc.origin :=
+    ∃ rc, lookup (Binding.getRec b w) k = some rc ∧
+      Binding.readOrigin (getDb s w) (Binding.getRec b w) k = rc.origin :=
   Binding.inv_unread' hI w k hk h
 
-/- (a), FULL STATEMENT (false, see `binding_run_full_false` / `f17_counterexample`):
-     theorem binding_step (b s op) (hI : Binding.Inv b s) (hw : WellFormed op) (hn : Binding.namesOK op = true) :
-         Binding.Inv (Binding.step b s op) (step s op).1
-     theorem binding_run (ops) (hw : ∀ op ∈ ops, WellFormed op ∧ Binding.namesOK op = true) :
-         Binding.Inv (Binding.run {} {} ops).1 (Binding.run {} {} ops).2.1
-   What the code does right is proved below: every operation except `rename` of a key that is not cached and belongs to a
-   name-addressed file (`Binding.renameSafe`), and every history whatsoever on index-addressed files. -/
+/-- (a) FULL STRENGTH.  Every well-formed operation — load, rejected load, add, rename (of read or not-yet-read keys, of
+index-addressed or name-addressed files), clear, update, copy (deep or shallow), retrieval with or without caching, on either
+database — preserves the binding invariant.  `hn`: a `load` of a file that is not name-addressed registers its record numbers
+(`Binding.loadOK`, what `TsDB.load` does).  The restriction to renames of cached or index-addressed keys (finding F17)
+disappeared with the repair of `_read`. -/
+theorem binding_step (b : Binding.Bind) (s : State) (op : Op) (hI : Binding.Inv b s) (hw : WellFormed op)
+    (hn : Binding.loadOK op = true) : Binding.Inv (Binding.step b s op) (step s op).1 :=
+  Binding.binding_step' b s op hI hw hn
 
-/-- (a) PARTIAL — excluded: `rename` applied to a not-yet-read series of a name-addressed file (.h5 .hdf5 .mat .tdms), finding
-F17 (hypothesis `hs`; `renameSafe` is `true` for every other operation and for every rename of a cached or index-addressed
-key).  `hn`: the operation is a `load` as `TsDB.load` issues it (`Binding.namesOK`, see `relName_pathJoin`).
-Every other well-formed operation — load, rejected load, add, rename, clear, update, copy (deep or shallow), retrieval with
-or without caching, on either database — preserves the binding invariant. -/
-theorem binding_step_partial (b : Binding.Bind) (s : State) (op : Op) (hI : Binding.Inv b s) (hw : WellFormed op)
-    (hn : Binding.namesOK op = true) (hs : Binding.renameSafe s op = true) :
-    Binding.Inv (Binding.step b s op) (step s op).1 :=
-  Binding.binding_step_partial' b s op hI hw hn hs
-
-/-- (a) PARTIAL — hence after every history that does not contain the excluded rename (`safeRun`). -/
-theorem binding_run_partial (ops : List Op) (hw : ∀ op ∈ ops, WellFormed op ∧ Binding.namesOK op = true)
-    (hs : Binding.safeRun {} ops = true) : Binding.Inv (Binding.run {} {} ops).1 (Binding.run {} {} ops).2.1 :=
-  Binding.binding_run_partial' ops hw hs
-
-/-- (a) FULL STRENGTH for index-addressed files (.ts .tda .bin .asc .dat .csv .pkl): after ANY history of well-formed
-operations whose loads are index-addressed, every key is bound to the file and record number it was registered with at
-load time — through any number of renames, updates, copies, clears and retrievals — and added series to the added object. -/
-theorem binding_run_indexed (ops : List Op) (hw : ∀ op ∈ ops, WellFormed op ∧ Binding.indexedOp op = true) :
+/-- (a) FULL STRENGTH.  After ANY history of well-formed operations every key of A or B is bound to the record it was
+registered for: same file and record number (index-addressed) / same data set name (name-addressed) as at load time —
+through any number of renames, updates, copies, clears and retrievals — and added series to the added object. -/
+theorem binding_run (ops : List Op) (hw : ∀ op ∈ ops, WellFormed op ∧ Binding.loadOK op = true) :
     Binding.Inv (Binding.run {} {} ops).1 (Binding.run {} {} ops).2.1 :=
-  Binding.binding_run_indexed' ops hw
+  Binding.binding_run' ops hw
 
 /-- `Binding.run` carries `Registry.run` unchanged (the binding is additive). -/
 theorem binding_run_registry (b : Binding.Bind) (s : State) (ops : List Op) :
     ((Binding.run b s ops).2.1, (Binding.run b s ops).2.2) = run s ops :=
   Binding.run_registry' b s ops
 
-/-- The hypothesis `namesOK` (names of a name-addressed file are found again from the key) holds for every name that does
-not start with `/` and in which the file path does not occur. -/
-theorem relName_pathJoin (file name : Str) (hf : file ≠ []) (hl : file.getLast? ≠ some sep)
-    (hn : name.head? ≠ some sep) (hocc : ∀ t, t <:+ (sep :: name) → file.isPrefixOf t = false) :
-    Binding.relName file (pathJoin file name) = name :=
-  Binding.relName_pathJoin' file name hf hl hn hocc
-
-/-- Finding F17 as a counter-history (kernel-evaluated): load a name-addressed file lazily, rename `a` to `c`, read `c`:
-the key is registered for record 1 (`a`) but the series is looked up under the name `c`. -/
-theorem f17_counterexample :
+/-- Regression for finding F17 (kernel-evaluated; before the repair this history was the counterexample): load a
+name-addressed file lazily, rename `a` to `c`, read `c`: the key is registered for record 1 (`a`) and the series read is
+the data set `a`; every key of the final state is bound. -/
+theorem f17_history_bound :
     (Binding.run {} {} Binding.f17ops).2.2 = [.done, .done, .series [("/d/f.h5/c".toList, 0)]] ∧
     lookup (Binding.run {} {} Binding.f17ops).1.recA "/d/f.h5/c".toList =
       some (.onFile "/d/f.h5".toList 1 "a".toList) ∧
-    Binding.root (Binding.run {} {} Binding.f17ops).1.origins 0 = some (.named "/d/f.h5".toList "c".toList) ∧
-    Binding.safeRun {} Binding.f17ops = false :=
-  Binding.f17_counterexample'
+    Binding.root (Binding.run {} {} Binding.f17ops).1.origins 0 = some (.named "/d/f.h5".toList "a".toList) ∧
+    Binding.allBound (Binding.run {} {} Binding.f17ops).1 (Binding.run {} {} Binding.f17ops).2.1 = true :=
+  Binding.f17_history_bound'
 
-/-- F17, silent variant: two not-yet-read series of a name-addressed file exchange their names by three renames; nothing is
-rejected and each key returns the OTHER record (the data set that carries its new name on file). -/
-theorem f17_swap_counterexample :
+/-- Regression for the silent variant of F17: two not-yet-read series of a name-addressed file exchange their names by
+three renames; each key returns the record it was registered for (key `…/b` the data set `a`, key `…/a` the data set `b`). -/
+theorem f17_swap_history_bound :
     (Binding.run {} {} Binding.f17swap).2.2 = [.done, .done, .done, .done,
       .series [("/d/f.h5/b".toList, 0), ("/d/f.h5/a".toList, 1)]] ∧
     lookup (Binding.run {} {} Binding.f17swap).1.recA "/d/f.h5/b".toList =
       some (.onFile "/d/f.h5".toList 1 "a".toList) ∧
-    Binding.root (Binding.run {} {} Binding.f17swap).1.origins 0 = some (.named "/d/f.h5".toList "b".toList) ∧
+    Binding.root (Binding.run {} {} Binding.f17swap).1.origins 0 = some (.named "/d/f.h5".toList "a".toList) ∧
     lookup (Binding.run {} {} Binding.f17swap).1.recA "/d/f.h5/a".toList =
       some (.onFile "/d/f.h5".toList 2 "b".toList) ∧
-    Binding.root (Binding.run {} {} Binding.f17swap).1.origins 1 = some (.named "/d/f.h5".toList "a".toList) :=
-  Binding.f17_swap_counterexample'
-
-/-- The full statement of (a) is false. -/
-theorem binding_run_full_false :
-    ¬ ∀ ops : List Op, (∀ op ∈ ops, WellFormed op ∧ Binding.namesOK op = true) →
-      Binding.Inv (Binding.run {} {} ops).1 (Binding.run {} {} ops).2.1 :=
-  Binding.binding_run_full_false'
+    Binding.root (Binding.run {} {} Binding.f17swap).1.origins 1 = some (.named "/d/f.h5".toList "b".toList) ∧
+    Binding.allBound (Binding.run {} {} Binding.f17swap).1 (Binding.run {} {} Binding.f17swap).2.1 = true :=
+  Binding.f17_swap_history_bound'
 
 /-- (b) `getm` (caching on or off) returns, in the order of the selected keys, objects whose root origin is the record
 registered for their key (in any state satisfying the invariant). -/
@@ -198,27 +178,27 @@ theorem rename_keeps_record (b : Binding.Bind) (s : State) (hI : Binding.Inv b s
   Binding.rename_keeps_record' b s hI w name newname old hl hnew
 
 /-- (d) Non-vacuity: two files (one index-addressed, one name-addressed) loaded lazily, some series read, a rename of a
-series that was read, an in-memory series, an update with deep copies, a deep copy of a selection, retrieval from the
-copy.  Hypotheses of `binding_run_partial` hold, every key of both databases is bound (`allBound`), and the copy of the
-renamed series in database B still resolves to record 2 of the first file, the copy of the copy of the added series to the
-added object. -/
+series that was read and one of a series of the name-addressed file that was NOT read, an in-memory series, an update with
+deep copies, a deep copy of a selection, retrieval from the copy.  The hypotheses of `binding_run` hold, every key of both
+databases is bound (`allBound`), the copy of the renamed series in database B still resolves to record 2 of the first file,
+the copy of the copy of the added series to the added object, and the renamed unread series to the data set `a`. -/
 example :
     let ops := [Op.load .A "/d/f.pkl".toList ["a".toList, "b".toList] true false,
                 Op.load .A "/d/g.h5".toList ["a".toList, "c".toList] false false,
                 Op.getm .A (some ["b".toList, "c".toList]) true,
                 Op.rename .A "b".toList "x".toList,
+                Op.rename .A "g.h5/a".toList "y".toList,
                 Op.add .B "/d/m".toList,
                 Op.update none true,
-                Op.copy (some ["x".toList, "m".toList, "g.h5/a".toList]) true,
+                Op.copy (some ["x".toList, "m".toList, "y".toList]) true,
                 Op.getm .B none false]
     let r := Binding.run {} {} ops
-    Binding.safeRun {} ops = true ∧ ops.all Binding.namesOK = true ∧ Binding.allBound r.1 r.2.1 = true ∧
-      r.2.2.getLast? = some (.series [("/d/f.pkl/x".toList, 5), ("/d/m".toList, 6), ("/d/g.h5/a".toList, 7)]) ∧
+    ops.all Binding.loadOK = true ∧ Binding.allBound r.1 r.2.1 = true ∧
+      r.2.2.getLast? = some (.series [("/d/f.pkl/x".toList, 5), ("/d/m".toList, 6), ("/d/g.h5/y".toList, 7)]) ∧
       Binding.root r.1.origins 5 = some (.record "/d/f.pkl".toList 2) ∧
       Binding.root r.1.origins 6 = some (.added 2) ∧
       Binding.root r.1.origins 7 = some (.named "/d/g.h5".toList "a".toList) := by
   decide +kernel
-
 
 /-- Non-vacuity: a history with a load, a rejected second load, a rename and a deep copy; the final state is coherent by
 `coherent_run`, and here it is, computed. -/
